@@ -136,8 +136,12 @@ def holds(v) -> bool:
 
 
 # ------------------------------------------------------------------ structure
-def wf_problems(root, allow_nan=False) -> List[str]:
+def wf_problems(root, allow_nan=False, payload=None) -> List[str]:
+    """Links, arity, sharing, root (C07).  Payload defects (NaN/inf/None constants, fixed-width numpy
+    integers) are not part of C07's statement; they are appended to `payload` (C09 closure)."""
     probs: List[str] = []
+    if payload is None:
+        payload = []
     if root.parent is not None:
         probs.append("root has a parent")
     seen = set()
@@ -172,11 +176,13 @@ def wf_problems(root, allow_nan=False) -> List[str]:
             if k == "ConstantExpression":
                 v = n.value
                 if v is None or isinstance(v, bool) or not isinstance(v, (int, float)) and type(v).__module__ != "numpy":
-                    probs.append(f"constant holds {v!r}")
-                elif not allow_nan and isinstance(v, float) and (math.isnan(v) or math.isinf(v)):
-                    probs.append(f"constant holds {v!r}")
+                    payload.append(f"constant holds {v!r}")
+                elif isinstance(v, float) and (math.isnan(v) or math.isinf(v)):
+                    payload.append(f"constant holds {v!r}")
+                elif hasattr(v, "dtype") and v.dtype.kind in "iu":
+                    payload.append(f"constant holds a fixed-width numpy integer {v!r}")
             if k == "VariableExpression" and not isinstance(n.identifier, str):
-                probs.append(f"variable identifier {n.identifier!r}")
+                payload.append(f"variable identifier {n.identifier!r}")
         for c in (n.left, n.right):
             if c is not None:
                 visit(c, n, False)
